@@ -257,8 +257,20 @@ def _repairs(bb, run):
                 continue
         mt = re.search(r"no method named `(\w+)` found for (?:mutable )?(?:reference|struct) `&?(?:mut )?(\w+)", msg)
         if mt and piece is not None:
+            # the new callee may live in another source file of this unit (or of an included unit): look there too
+            srcs = [piece.srcspec] + [p2.srcspec for p2 in bb.pieces if getattr(p2, "srcspec", None)]
+            src = None
+            for sp in dict.fromkeys(x for x in srcs if x and x.startswith("repo:")):
+                try:
+                    path, _shown = B.resolve_source(sp)
+                    sf = B.SourceFile.get(path)
+                    if any(m2.name == mt.group(1) for blk in sf.impls(mt.group(2), None) for m2 in sf.methods(blk)):
+                        src = sp
+                        break
+                except Exception:
+                    continue
             extra.append({"kind": "methods", "impl": mt.group(2), "names": [mt.group(1)], "stub_only": True,
-                          "source": piece.srcspec if piece.srcspec.startswith("repo:") else None, "_auto": True})
+                          "source": src or (piece.srcspec if piece.srcspec.startswith("repo:") else None), "_auto": True})
             continue
         mt = re.search(r"cannot find function `(\w+)` in this scope", msg)
         if mt and piece is not None:
@@ -522,7 +534,7 @@ def unit_obligations(b, prop):
                     named.append(c.full_id)
                 else:
                     assumed.append(c.full_id)
-            elif c.kind in ("ensures", "loop_invariant", "loop_ensures", "before", "after", "loopstart", "loopend", "closure_sig", "start", "tail"):
+            elif c.kind in ("ensures", "loop_invariant", "loop_ensures", "before", "after", "loopstart", "loopend", "closure_sig", "start", "tail", "exit"):
                 if p.has_body:
                     named.append(c.full_id)
                 else:
